@@ -14,7 +14,10 @@ Lits   == Leaves \cup {[op |-> "not", e |-> x] : x \in Leaves}
 Nary(S, n) == {[op |-> o, es |-> s] : o \in {"and", "or"}, s \in UNION {[1..k -> S] : k \in 1..n}}
 D1 == Lits \cup Nary(Lits, 3)
 D2 == D1 \cup {[op |-> "not", e |-> x] : x \in Nary(Leaves, 2)} \cup Nary(Leaves \cup Nary(Leaves, 2), 2)
-U  == IF Deep THEN D2 ELSE D1
+\* trailing-operand family: op1(x, op2(y, z), w) and op1(x, op2(y, z, w))
+TailFam == {[op |-> o1, es |-> <<x, [op |-> o2, es |-> <<y, z>>], w>>] : o1 \in {"and", "or"}, o2 \in {"and", "or"}, x \in Leaves, y \in Leaves, z \in Leaves, w \in Leaves}
+        \cup {[op |-> o1, es |-> <<x, [op |-> o2, es |-> <<y, z, w>>]>>] : o1 \in {"and", "or"}, o2 \in {"and", "or"}, x \in Leaves, y \in Leaves, z \in Leaves, w \in Leaves}
+U  == (IF Deep THEN D2 ELSE D1) \cup TailFam
 
 ShapesU == Shapes({1, 2}, {1, 2, 3})
 \* Expressions are indexed by integers and every table is forced with TLCEval: TLC neither caches
@@ -37,8 +40,8 @@ KeySound == LET E == ETab  n == Len(E)  K == KTab(E)  M == MTab(E) IN
 \* ---- adversarial pairs ----
 WTab(E) == TLCEval(<<[i \in DOMAIN E |-> KeyXor(E[i])], [i \in DOMAIN E |-> KeyOpBlind(E[i])], [i \in DOMAIN E |-> KeyNotBlind(E[i])],
                      [i \in DOMAIN E |-> KeyFlat(E[i])], [i \in DOMAIN E |-> KeyColBlind(E[i])], [i \in DOMAIN E |-> KeyValBlind(E[i])],
-                     [i \in DOMAIN E |-> KeySetLike(E[i])]>>)
-WeakName == <<"xor", "opblind", "notblind", "flat", "colblind", "valblind", "setlike">>
+                     [i \in DOMAIN E |-> KeySetLike(E[i])], [i \in DOMAIN E |-> KeyStream(E[i])]>>)
+WeakName == <<"xor", "opblind", "notblind", "flat", "colblind", "valblind", "setlike", "stream">>
 \* dataset: every row shape once, plus column 4 unique per row (exact membership through group-by)
 ShapeSeq == SetToSeq(ShapesU)
 PRows == [i \in DOMAIN ShapeSeq |-> ShapeSeq[i] @@ (4 :> i)]
@@ -48,7 +51,7 @@ EmitAll ==
   LET E == ETab  n == Len(E)  W == WTab(E)  M == MTab(E)  Z == ZTab(E)  P == TLCEval(PRows)
       R == TLCEval([i \in DOMAIN E |-> ExecSpec(P, E[i], <<4>>)]) IN
   /\ PrintT(ToJson([tag |-> "setup", rows |-> [i \in DOMAIN PRows |-> RowPairs(PRows[i])]]))
-  /\ \A w \in 1..7 : \A i \in 1..n :
+  /\ \A w \in 1..8 : \A i \in 1..n :
        LET S == {j \in 1..n : W[w][j] = W[w][i] /\ M[j] # M[i]} IN
        S # {} => LET j == CHOOSE j \in S : \A k \in S : Z[j] <= Z[k] IN
                  PrintT(ToJson([tag |-> "pair", scheme |-> WeakName[w], e1 |-> E[i], e2 |-> E[j], r1 |-> R[i], r2 |-> R[j]]))
